@@ -208,14 +208,14 @@ func (g *c12Engine) runPlan(sp *schedPlan, env ...string) (*schedOut, *schedVerd
 	if sp.Preinit && g.binCold != "" {
 		bin = g.binCold
 	}
-	p := g.e.RunProc(90*time.Second, env, d, bin, inP, outP)
+	p := g.e.RunProc(150*time.Second, env, d, bin, inP, outP)
 	if p.Exit == 4 && bin == g.binCold { // the tree's default source is not crypto/rand.Reader: hook configuration only
 		g.binCold = ""
-		p = g.e.RunProc(90*time.Second, env, d, g.bin, inP, outP)
+		p = g.e.RunProc(150*time.Second, env, d, g.bin, inP, outP)
 	}
 	switch {
 	case p.TimedOut:
-		return nil, &schedVerdict{Inconclusive: "worker killed after 90 s"}, nil
+		return nil, &schedVerdict{Inconclusive: "worker killed after 150 s"}, nil
 	case p.Exit == 66:
 		m, _ := filepath.Glob(racePath + ".*")
 		rep := ""
@@ -770,7 +770,7 @@ func CheckC12(e *Env) (int, error) {
 			for _, c := range inconclusive {
 				incl += c
 			}
-			if stop || next >= maxRuns || time.Now().After(deadline) || len(viols) >= 12 || incl >= 6 {
+			if stop || next >= maxRuns || time.Now().After(deadline) || len(viols) >= 12 || incl >= 4 {
 				mu.Unlock()
 				return
 			}
